@@ -3,6 +3,7 @@ import ast, re, struct
 
 from .core import ( rule, Result, AnalysisError, dotted, call_name, is_call_to, names_in, attrs_in, walk_no_nested,
                     norm_text, dotted_in, stmt_of, pmatch, pfind, txt )
+from .core import Matcher
 from .fold import fold, try_fold, NoFold
 from . import spec
 from .grammar import grammar_of, Node, Decide, Closure, ClassRef, Unknown
@@ -516,15 +517,15 @@ def d_resolve( ctx ):
     res = Result( 'D-RESOLVE' )
     src = ctx.src( 'dotdict.py' )
     fn = src.get( 'dotdict_base._resolve' )
-    loops = [ w for w in ast.walk( fn ) if isinstance( w, ast.While ) and pmatch( w.test, "'..' in mine" ) ]
+    loops = [ ( w, m_ ) for w in ast.walk( fn ) if isinstance( w, ast.While ) for m_ in [ pmatch( w.test, "'..' in _mine" ) ] if m_ is not None and isinstance( m_['_mine'], ast.Name ) ]
     if len( loops ) != 1:
         raise AnalysisError( "_resolve: the '..' reduction loop was not found" )
-    lp = loops[0]
-    sp = [ s_ for s_ in lp.body if pmatch( s_, "( _f, _b ) = mine.split( '..', 1 )" ) ]
+    lp = loops[0][0]; MINE = loops[0][1]['_mine'].id
+    sp = [ s_ for s_ in lp.body if pmatch( s_, "( _f, _b ) = %s.split( '..', 1 )" % MINE ) ]
     if not sp:
         res.bad( src, lp, "'..' loop", "the key must be split at the first '..' only" )
         return res
-    m = pmatch( sp[0], "( _f, _b ) = mine.split( '..', 1 )" )
+    m = pmatch( sp[0], "( _f, _b ) = %s.split( '..', 1 )" % MINE )
     front, back = m['_f'].id, m['_b'].id
     tr = [ s_ for s_ in lp.body if isinstance( s_, ast.Assign ) and isinstance( s_.targets[0], ast.Name ) and front in names_in( s_.value ) and s_ is not sp[0] ]
     if not tr:
@@ -534,7 +535,7 @@ def d_resolve( ctx ):
         res.ok( src, tr[0], "front is truncated at its last '.' (one level up): " + norm_text( tr[0].value ))
     else:
         res.bad( src, tr[0], tr[0], "'..' must drop exactly the last level of the front part: front[:max( 0, front.rfind( '.' ))]" )
-    jn = [ s_ for s_ in lp.body if isinstance( s_, ast.Assign ) and dotted( s_.targets[0] ) == 'mine' and s_ is not sp[0] ]
+    jn = [ s_ for s_ in lp.body if isinstance( s_, ast.Assign ) and dotted( s_.targets[0] ) == MINE and s_ is not sp[0] ]
     if not jn:
         raise AnalysisError( '_resolve: re-join not found' )
     cells = wrong = 0
@@ -767,12 +768,17 @@ def t_tnet( ctx ):
     while isinstance( node, ast.If ):
         tests.append( node )
         node = node.orelse[0] if len( node.orelse ) == 1 and isinstance( node.orelse[0], ast.If ) else None
+    # roles: the payload and tag locals are those of the final `return size + b':' + payload + tag`
+    frets = [ s for s in dump.body if isinstance( s, ast.Return ) ]
+    fm = pmatch( frets[-1].value, "_siz + b':' + _out + _typ" ) if frets else None
+    OUT = dotted( fm['_out'] ) if fm is not None else 'out'
+    TYP = dotted( fm['_typ'] ) if fm is not None else 'typ'
     for t in tests:
         typ = None; out = None
         for s in t.body:
-            if isinstance( s, ast.Assign ) and dotted( s.targets[0] ) == 'typ':
+            if isinstance( s, ast.Assign ) and dotted( s.targets[0] ) == TYP:
                 typ = try_fold( s.value )
-            if isinstance( s, ast.Assign ) and dotted( s.targets[0] ) == 'out':
+            if isinstance( s, ast.Assign ) and dotted( s.targets[0] ) == OUT:
                 out = s.value
             if isinstance( s, ast.Return ):
                 if is_call_to( s.value, 'dump_dict' ): typ = b'}'
@@ -801,13 +807,15 @@ def t_tnet( ctx ):
     if not node:
         raise AnalysisError( 'parse: no dispatch chain' )
     node = node[0]
+    prets = [ s for s in parse.body if isinstance( s, ast.Return ) and isinstance( s.value, ast.Tuple ) and s.value.elts and isinstance( s.value.elts[0], ast.Name ) ]
+    VALUE = prets[-1].value.elts[0].id if prets else 'value'
     while isinstance( node, ast.If ):
         tag = None
         if isinstance( node.test, ast.Compare ) and isinstance( node.test.ops[0], ast.Eq ):
             tag = try_fold( node.test.comparators[0] )
         val = None
         for s in node.body:
-            if isinstance( s, ast.Assign ) and dotted( s.targets[0] ) == 'value':
+            if isinstance( s, ast.Assign ) and dotted( s.targets[0] ) == VALUE:
                 val = s.value
         if isinstance( tag, bytes ):
             dec[tag] = ( val, node )
@@ -1349,7 +1357,8 @@ def t_localize( ctx ):
             res.bad( src, c, c, 'datetime.replace( tzinfo=... ) never rejects an ambiguous or nonexistent wall-clock time' )
     # the hint comes from timezone_info: abbreviation -> True/False, raw zone -> None
     ti = src.get( 'timestamp.timezone_info' )
-    if pfind( ti, 'is_dst = None' ) and pfind( ti, '( tzinfo, is_dst, _x ) = cls._tzabbrev[tzinfo]' ):
+    TM = Matcher()
+    if TM.find( ti, '( tzinfo, _dst, _x ) = cls._tzabbrev[tzinfo]' ) is not None and TM.find( ti, '_dst = None' ) is not None and TM.find( ti, 'return ( tzinfo, _dst )' ) is not None:
         res.ok( src, ti, 'timezone_info: is_dst None for a raw zone, True/False only from a DST-specific abbreviation' )
     else:
         res.bad( src, ti, 'timezone_info', 'a zone given without daylight-saving designation must yield is_dst None' )
